@@ -102,6 +102,23 @@ def parseSpec (peer own : Array WireFrame) (spec : String) : Option WireFrame :=
 
 def boolStr (b : Bool) : String := if b then "1" else "0"
 
+/-- byte `i` of the position-dependent test pattern `seed` (top byte of a multiplicative hash of the
+    position): compact op encoding for MiB-sized payloads whose content must reveal a dropped,
+    duplicated or reordered chunk. The harness computes the same function (`patByte`). -/
+def patByte (seed i : Nat) : UInt8 :=
+  UInt8.ofNat (((i + seed) * 2654435761 % 4294967296) / 16777216)
+
+/-- payload syntax of this engine: `pat:<n>:<seed>:<off>` (bytes off .. off+n-1 of pattern `seed`),
+    else the common syntax (`-`, hex, `fill:<n>:<byte>`, joined by `+`) -/
+def parsePayloadX (s : String) : Option Bytes :=
+  match s.splitOn ":" with
+  | ["pat", n, seed, off] => do
+      let n ← n.toNat?
+      let seed ← seed.toNat?
+      let off ← off.toNat?
+      pure ((List.range n).map (fun j => patByte seed (off + j)))
+  | _ => parsePayload s
+
 def step (w : World) (toks : List String) : World × String :=
   match toks with
   | ["new"] => ({}, "ok")
@@ -110,14 +127,14 @@ def step (w : World) (toks : List String) : World × String :=
     | some s, some k, some iv => (setEp w e (s.setKey k iv), "ok")
     | _, _, _ => (w, "bad-op")
   | ["send", e, fl, pl] =>
-    match getEp w e, fl.toNat?, parsePayload pl with
+    match getEp w e, fl.toNat?, parsePayloadX pl with
     | some s, some fl, some d =>
       match s.sendFrame d fl with
       | .error er => (w, errStr er)
       | .ok (s', f) => (emit (setEp w e s') e [f], "ok " ++ showFrame f)
     | _, _, _ => (w, "bad-op")
   | ["write", e, pl] =>
-    match getEp w e, parsePayload pl with
+    match getEp w e, parsePayloadX pl with
     | some s, some d =>
       match s.writeMessage d with
       | .error er => (w, errStr er)
